@@ -37,6 +37,10 @@ fn main() {
         ("C10", Some(r)) => checks::c10::replay(&ctx, &r["case"]),
         ("C20", None) => checks::c20::run(&ctx),
         ("C20", Some(r)) => checks::c20::replay(&ctx, &r["case"]),
+        ("C15", None) => checks::c15::run(&ctx),
+        ("C15", Some(r)) => checks::c15::replay(&ctx, &r["case"]),
+        ("C18", None) => checks::c18::run(&ctx),
+        ("C18", Some(r)) => checks::c18::replay(&ctx, &r["case"]),
         ("C05", None) => checks::cfgstate::run_c05(&ctx),
         ("C06", None) => checks::cfgstate::run_c06(&ctx),
         ("C07", None) => checks::cfgstate::run_c07a(&ctx),
